@@ -593,6 +593,92 @@ def pair_membership_sites(K, methods, table_attr="validations"):
     return sites
 
 
+# --------------------------------------------------------------------------------------------- (f) exempted elements
+
+def _filtered_loop(loop):
+    """(iterated expression, [guard conditions on the loop variable that an element must satisfy to enter the body]) with `filter(f, X)`,
+    `(v for v in X if c)` / `[v for v in X if c]` in the iterator written out."""
+    import copy
+
+    it, guards = loop.iter, []
+    tgt = loop.target
+    while True:
+        if isinstance(it, ast.Call) and isinstance(it.func, ast.Name) and it.func.id == "filter" and len(it.args) == 2:
+            f = it.args[0]
+            elem = copy.deepcopy(tgt)
+            for x in ast.walk(elem):
+                if hasattr(x, "ctx"):
+                    x.ctx = ast.Load()
+            if isinstance(f, ast.Constant) and f.value is None:
+                guards.append(elem)
+            elif isinstance(f, ast.Lambda) and len(f.args.args) == 1 and isinstance(tgt, ast.Name):
+                body = copy.deepcopy(f.body)
+                for x in ast.walk(body):
+                    if isinstance(x, ast.Name) and x.id == f.args.args[0].arg:
+                        x.id = tgt.id
+                guards.append(body)
+            else:
+                guards.append(ast.Call(func=f, args=[elem], keywords=[]))
+            it = it.args[1]
+            continue
+        if isinstance(it, (ast.GeneratorExp, ast.ListComp)) and len(it.generators) == 1 and isinstance(it.elt, ast.Name) \
+                and isinstance(it.generators[0].target, ast.Name) and it.elt.id == it.generators[0].target.id and isinstance(tgt, ast.Name):
+            g = it.generators[0]
+            for c in g.ifs:
+                c = copy.deepcopy(c)
+                for x in ast.walk(c):
+                    if isinstance(x, ast.Name) and x.id == g.target.id:
+                        x.id = tgt.id
+                guards.append(c)
+            it = g.iter
+            continue
+        return it, guards
+
+
+def element_exemptions(fn_node):
+    """For every loop of the function that inspects its elements with a check that can raise: the conditions under which an element
+    ends its iteration WITHOUT having passed such a check.  Returns [(lineno, [offending condition kinds])] — an element may be
+    exempted because it `is None`, not because it is falsy / satisfies some wider test — and the number of loops examined."""
+    bad, nloops = [], 0
+    for loop in ast.walk(fn_node):
+        if not (isinstance(loop, ast.For) and isinstance(loop.target, ast.Name)):
+            continue
+        if not any(isinstance(x, ast.Raise) for x in ast.walk(ast.Module(body=loop.body, type_ignores=[]))):
+            continue
+        _, guards = _filtered_loop(loop)
+        var = loop.target.id
+        body = list(loop.body)
+        for gd in reversed(guards):
+            body = [ast.copy_location(ast.If(test=ast.UnaryOp(op=ast.Not(), operand=gd), body=[ast.Continue()], orelse=[]), loop)] + body
+        ast.fix_missing_locations(ast.Module(body=body, type_ignores=[]))
+        outs = Executor().run_body(body, __import__("sa.rules._c15_sym", fromlist=["State"]).State({}))
+
+        def mentions(e):
+            return any(isinstance(x, ast.Name) and x.id == var for x in ast.walk(e))
+
+        def none_test(e):
+            return isinstance(e, ast.Compare) and len(e.ops) == 1 and isinstance(e.ops[0], ast.Is) and isinstance(e.left, ast.Name) and e.left.id == var \
+                and isinstance(e.comparators[0], ast.Constant) and e.comparators[0].value is None
+
+        raising = [[(k, pol) for k, _, pol in o.state.conds] for o in outs if o.kind == "raise"]
+        if not any(mentions(e) for o in outs if o.kind == "raise" for e, _ in o.conds):
+            continue  # the raising checks do not look at the element
+        nloops += 1
+        for o in outs:
+            if o.kind not in ("fall", "continue"):
+                continue
+            seq = [(k, pol) for k, _, pol in o.state.conds]
+            # a check passed: a condition on the element whose other outcome raises at once
+            passed = any(mentions(e) and not none_test(e) and seq[:i] + [(k, not pol)] in raising for i, (k, e, pol) in enumerate(o.state.conds))
+            if passed:
+                continue
+            wide = [unparse(e).replace(var, "<element>") + ("" if pol else " is falsy") for _, e, pol in o.state.conds
+                    if mentions(e) and not none_test(e)]
+            if wide:
+                bad.append((loop.lineno, wide))
+    return bad, nloops
+
+
 # --------------------------------------------------------------------------------------------- (b) association kinds
 
 def _names(t):
